@@ -422,6 +422,9 @@ def part_paths(part, n, exhaustive_paths, lib=None):
         collected.append({"src": src, "label": label,
                           "strings": strings_of(coll),
                           "permuted": src != psrc2})
+        if a[0] == "timeout" or b[0] == "timeout":
+            part.timeouts += 1      # inconclusive, never a finding
+            return None
         if a != b:
             return (Finding(f"C12|construction-order|{label}",
                             f"{src} -> {a}\n  permuted literals: {psrc2} "
